@@ -143,6 +143,8 @@ def run(ctx):
     R1 = ctx.rule('R01.1', 'reader offsets of every node accessor equal the positions the format table assigns (shared with C01)', floor=30)
     R2 = ctx.rule('R02.2', 'scan / index agreement between reader and writer', floor=5)
     ctx.step(readerrules.run, ctx, R1, R2)
+    # the value a lookup returns was packed by the writer in pack_size(value) bytes and is unpacked from as many: the packing rule R09.4
+    ctx.step(formatrules.packing, ctx)
     # writer side of R02.2: inputs reversed, index table default / fill
     R = {'events': R2, 'widths': R2, 'index': R2, 'sizes': R2, 'state': R2}
     lib = ctx.lib
